@@ -19,20 +19,23 @@ def analysis(config="all"):
 TIER = {"tier": "quick"}
 
 
-def run_rules(prop, level, rules, floors, explanation, trusted, extra=None, not_decided=None):
+def run_rules(prop, level, rules, floors, explanation, trusted, extra=None, not_decided=None, alias=None):
     res = Result(prop, level)
     res.trusted = trusted
     res.assumptions = ["rustc MIR (mir-opt-level=0) of the all-features configuration is a faithful CFG of the source",
                        "content-preserving std conversions (as_ref, deref, into, to_vec, to_owned ...) are as tabulated in rules/mir.py TRANSPARENT_DEFS"]
     facts, findings, entries, protos = analysis()
+    alias = alias or {}
     for f in findings:
-        if f.rule not in rules:
+        if f.rule not in rules and f.rule not in alias:
             continue
+        # a rule of a sibling property that is also a necessary condition of this one is reported under this property's own id
+        rid = f.rule if f.rule in rules else alias[f.rule]
         res.oblige(f.ok)
         if f.ok:
-            res.inst(f.rule, f.desc)
+            res.inst(rid, f.desc)
         else:
-            res.violate(f.rule, f.where, f.construct, f.msg, file=f.file, line=f.line)
+            res.violate(rid, f.where, f.construct, f.msg, file=f.file, line=f.line)
     if extra:
         extra(res, facts, entries, protos)
     for r, n in floors.items():
@@ -49,14 +52,14 @@ def run_rules(prop, level, rules, floors, explanation, trusted, extra=None, not_
                 res.violate(prop + ".R0", "config[%s]" % cfg, "does not type-check", "configuration %s does not type-check: %s" % (cfg, (F.rustc_errors(e.stderr) or ["?"])[0][:200]))
                 continue
             for f in fnd2:
-                if f.rule not in rules:
+                if f.rule not in rules and f.rule not in alias:
                     continue
                 if not f.ok and re.search(r"missing|expected one|expected exactly one|not found|anchor", f.msg + " " + f.construct):
                     continue
                 n_extra += 1
                 res.oblige(f.ok)
                 if not f.ok:
-                    res.violate(f.rule, f.where, f.construct, "[configuration %s] %s" % (cfg, f.msg), file=f.file, line=f.line)
+                    res.violate(f.rule if f.rule in rules else alias[f.rule], f.where, f.construct, "[configuration %s] %s" % (cfg, f.msg), file=f.file, line=f.line)
         explanation += "; thorough tier: the same rule set re-evaluated on the default and the 8 singleton feature configurations (%d further rule evaluations)" % n_extra
         res.extra["configurations"] = ["all"] + extra_cfgs
     res.explanation = explanation
@@ -72,3 +75,12 @@ def gate_rule(res, rule, verdict, what, g):
         res.inst(rule, what)
     else:
         res.violate(rule, g.body["id"] if g.body else "Paseto::parse_raw_token", what, why or "gate not established", file=g.v.file() if g.body else None, line=g.body["line"] if g.body else None)
+
+
+def refusal_rules(res, rule, facts):
+    """parse_raw_token turns a token away only for a stated cause, and decodes the payload segment with URL_SAFE_NO_PAD
+    (round-trip side of the textual gates: what the producing side writes is never refused)."""
+    g = G.gates(facts)
+    gate_rule(res, rule, g.refusal_ok(), "parse_raw_token refuses a token only for its segment count, a footer mismatch, a header mismatch or an undecodable payload segment", g)
+    if g.body is not None:
+        gate_rule(res, rule, g.path_sensitive()["engine"], "parse_raw_token decodes segment 2 with URL_SAFE_NO_PAD", g)
